@@ -238,7 +238,13 @@ def _r7(ctx):
     for attr, store in (("rate_modifier", "_rate_modifier"), ("ode_modifier", "_ode_modifier")):
         ci = pkg.cls("Network")
         getters = [fn for fn in ci.node.body if isinstance(fn, ast.FunctionDef) and fn.name == attr and any(ast.unparse(d) == "property" for d in fn.decorator_list)]
-        ok = len(getters) == 1 and any(isinstance(x, ast.Return) and ast.unparse(x.value) in (f"self.{store}", f"self.{store}.copy()") for x in getters[0].body)
+        rets = [x for x in ast.walk(getters[0]) if isinstance(x, ast.Return)] if len(getters) == 1 else []
+        def bare(v):
+            """the table a whole-copy expression carries: X for X, X.copy(), dict(X), copy.deepcopy(X)"""
+            while isinstance(v, ast.Call) and _whole_copy(v):
+                v = v.func.value if isinstance(v.func, ast.Attribute) and v.func.attr == "copy" and not v.args else v.args[0]
+            return v
+        ok = bool(rets) and all(x.value is not None and _whole_copy(x.value) and ast.unparse(bare(x.value)) == f"self.{store}" for x in rets)
         ctx.check(ok, "R7", f"Network.{attr} getter", (NETWORK, getters[0].lineno if getters else 0), "the property returns the stored table", expected=f"return self.{store}")
 
 
@@ -459,16 +465,30 @@ def _r2(ctx):
     for node in ast.walk(h):
         if isinstance(node, ast.Assign) and any(isinstance(t, ast.Name) and t.id in passed for t in node.targets) and isinstance(node.value, ast.DictComp):
             conv = node
+    if conv is None:
+        # ... or the conversion written in the call itself: Network(rate_modifier={int(k): v for ..})
+        for c in ast.walk(h):
+            if isinstance(c, ast.Call) and ast.unparse(c.func) == "Network":
+                for k in c.keywords:
+                    if k.arg == "rate_modifier" and isinstance(k.value, ast.DictComp):
+                        conv = ast.copy_location(ast.Assign(targets=[ast.Name(id="<keyword rate_modifier>", ctx=ast.Store())], value=k.value), c)
+                        conv._inline = True
     okc = False
     if conv is not None:
         g0 = conv.value.generators[0]
         kname = g0.target.elts[0].id if isinstance(g0.target, ast.Tuple) and isinstance(g0.target.elts[0], ast.Name) else None
         okc = ast.unparse(conv.value.key) == f"int({kname})" and ast.unparse(g0.iter).endswith(".items()") and not g0.ifs
-    ctx.check(okc, "R2", "RenderCommand.handle:int(key)", (RENDER, conv.lineno if conv else h.lineno),
-              "TOML keys (strings) are converted to int before they are compared with idxfromfile",
-              expected="{int(key): value for key, value in rate_modifier.items()}", found=ast.unparse(conv.value)[:90] if conv else "no conversion")
+    srcs = [n for n in ast.walk(h) if isinstance(n, ast.Assign) and any(isinstance(t, ast.Name) and t.id in passed for t in n.targets)]
+    if conv is None and not (srcs and all(_whole_copy(n.value) or isinstance(n.value, ast.Subscript) for n in srcs)):
+        # the table reaches Network(..) through something this rule cannot read (a helper, a loop with other statements): not evidence of a missing conversion
+        ctx.unrec("R2", "RenderCommand.handle:int(key)", (RENDER, h.lineno), "cannot tell how the keys of the configured rate_modifier table are converted on the way to Network(rate_modifier=..): "
+                  + "; ".join(ast.unparse(n.value)[:60] for n in srcs)[:160])
+    else:
+        ctx.check(okc, "R2", "RenderCommand.handle:int(key)", (RENDER, conv.lineno if conv else h.lineno),
+                  "TOML keys (strings) are converted to int before they are compared with idxfromfile",
+                  expected="{int(key): value for key, value in rate_modifier.items()}", found=ast.unparse(conv.value)[:90] if conv else "no conversion")
     # the Network(...) call receives the converted dict
-    if conv is not None:
+    if conv is not None and not getattr(conv, "_inline", False):
         later = [c for c in ast.walk(h) if isinstance(c, ast.Call) and ast.unparse(c.func) == "Network" and c.lineno > conv.lineno]
         ok = any(any(k.arg == "rate_modifier" and ast.unparse(k.value) == ast.unparse(conv.targets[0]) for k in c.keywords) for c in later)
         ctx.check(ok, "R2", "RenderCommand.handle:Network(rate_modifier=)", (RENDER, later[0].lineno if later else conv.lineno),
@@ -485,12 +505,16 @@ def _r2(ctx):
     if w is None:
         ctx.missing("R2", "BaseConfiguration.content:rate_modifier", (CONF, cfn.lineno), "no assignment of chemistry['rate_modifier']")
     else:
-        v = w.value
+        v = _helpers_inlined(pkg, CONF, "BaseConfiguration", w.value)         # a one-expression helper is what it returns
         okw = isinstance(v, ast.DictComp) and isinstance(v.key, ast.Call) and ast.unparse(v.key.func) == "str" and "_ratemodifier" in ast.unparse(v.generators[0].iter) \
             and len(v.generators) == 1 and not v.generators[0].ifs          # every entry, none filtered away
-        ctx.check(okw, "R2", "BaseConfiguration.content:str(key)", (CONF, w.lineno),
-                  "every rate-modifier entry is written, keys as strings (TOML keys; integer keys make tomlkit raise), the inverse of the reader's int(key)",
-                  expected="{str(key): value for key, value in self._ratemodifier.items()}", found=ast.unparse(v)[:90])
+        if not isinstance(v, ast.DictComp) and not _whole_copy(v):
+            # neither a comprehension (read above) nor the stored table handed on as it is (integer keys: a finding): not a shape this rule reads
+            ctx.unrec("R2", "BaseConfiguration.content:str(key)", (CONF, w.lineno), f"cannot tell whether the rate-modifier keys are written as strings: {ast.unparse(v)[:100]}")
+        else:
+            ctx.check(okw, "R2", "BaseConfiguration.content:str(key)", (CONF, w.lineno),
+                      "every rate-modifier entry is written, keys as strings (TOML keys; integer keys make tomlkit raise), the inverse of the reader's int(key)",
+                      expected="{str(key): value for key, value in self._ratemodifier.items()}", found=ast.unparse(v)[:90])
 
 
 def _r3(ctx):
@@ -549,9 +573,23 @@ def _r3(ctx):
     ctx.check(ok, "R3", "Network.reindex", (NETWORK, rfn.lineno), "reindex sets reac.idxfromfile = position for every reaction of reaction_list",
               found="; ".join(show(f.value) for f in st))
     pr = pkg.method("Network", "reactions")
-    src = " ".join(ast.unparse(pr.body[-1]).split())
-    ctx.check(src.startswith("return self.reaction_list or "), "R3", "Network.reactions", (NETWORK, pr.lineno),
-              "network.reactions is reaction_list itself whenever it is non-empty (same order as reindex)", found=src[:80])
+    # by value: on every path on which reaction_list is non-empty the getter returns reaction_list itself (`A or [dummy]`,
+    # `A if A else [dummy]`, an early return either way round, a local defaulted when empty)
+    from ..valueflow import norm_guard
+    A = ("attr", ("param", "self"), "reaction_list")
+    pfl = Flow(pr, NETWORK)
+
+    def cases(v, conds):
+        v = simp(v)
+        if v[0] == "bool" and v[1] == "Or" and len(v[2]) == 2:
+            return cases(v[2][0], conds + [(v[2][0], True)]) + cases(v[2][1], conds + [(v[2][0], False)])
+        if v[0] in ("ifexp", "phi") and len(v) == 4:
+            return cases(v[2], conds + [(v[1], True)]) + cases(v[3], conds + [(v[1], False)])
+        return [(v, [norm_guard((simp(c), p_)) for c, p_ in conds])]
+    allc = [x for f in pfl.facts if f.kind == "return" for x in cases(f.value, list(f.guards))]
+    okr = bool(allc) and any(v == A for v, _ in allc) and all(v == A or (A, False) in g for v, g in allc)
+    ctx.check(okr, "R3", "Network.reactions", (NETWORK, pr.lineno),
+              "network.reactions is reaction_list itself whenever it is non-empty (same order as reindex)", found="; ".join(show(v)[:60] for v, _ in allc)[:160])
 
 
 def _r4(ctx, m):
@@ -640,11 +678,28 @@ def _r5(ctx, m):
     h = pkg.method("ExampleCommand", "handle")
     ctx.saw(EXAMPLE, "ExampleCommand.handle")
     k2 = set()
+    # by role: every iteration (a `for` statement or a comprehension clause) over <table>.items() where <table> is the example
+    # module's ode_modifier (or a local alias of it); the string keys its VALUE variable is subscripted with, anywhere in that
+    # statement / comprehension
+    tables = {"ode_modifier"} | {t.id for n in ast.walk(h) if isinstance(n, ast.Assign) and isinstance(n.value, ast.Attribute) and n.value.attr == "ode_modifier"
+                                 for t in n.targets if isinstance(t, ast.Name)}
+
+    def _items_value(target, it):
+        if isinstance(it, ast.Call) and isinstance(it.func, ast.Attribute) and it.func.attr == "items" and not it.args and \
+                ((isinstance(it.func.value, ast.Name) and it.func.value.id in tables) or (isinstance(it.func.value, ast.Attribute) and it.func.value.attr == "ode_modifier")) \
+                and isinstance(target, (ast.Tuple, ast.List)) and len(target.elts) == 2 and isinstance(target.elts[1], ast.Name):
+            return target.elts[1].id
+        return None
     for n in ast.walk(h):
-        # by role: the loop over <table>.items() whose body zips two string-keyed fields of the value
-        if isinstance(n, ast.For) and isinstance(n.iter, ast.Call) and isinstance(n.iter.func, ast.Attribute) and n.iter.func.attr == "items" and \
-                any(isinstance(x, ast.For) and isinstance(x.iter, ast.Call) and ast.unparse(x.iter.func) == "zip" and _str_keys(x.iter) for x in ast.walk(n)):
-            k2 |= _str_keys(n)
+        scopes = []
+        if isinstance(n, ast.For):
+            scopes.append((_items_value(n.target, n.iter), n))
+        elif isinstance(n, (ast.ListComp, ast.GeneratorExp, ast.SetComp, ast.DictComp)):
+            scopes += [(_items_value(g.target, g.iter), n) for g in n.generators]
+        for var, scope in scopes:
+            if var is not None:
+                k2 |= {x.slice.value for x in ast.walk(scope) if isinstance(x, ast.Subscript) and isinstance(x.value, ast.Name) and x.value.id == var
+                       and isinstance(x.slice, ast.Constant) and isinstance(x.slice.value, str)}
     sets[(EXAMPLE, "ExampleCommand.handle (reader)")] = k2
     # writer: init.py
     from .c20 import _init_handle, _option_origins, _option_loops
@@ -719,6 +774,12 @@ MUTANTS = [
         {"file": INIT, "old": "    def option(self, key=None):\n", "new": "    @staticmethod\n    def _ode_terms(values):\n        table = {}\n        for text in values:\n            for om in text.split(\";\"):\n                if not om:\n                    break\n                key, value = om.split(\":\")\n                fact, rdep = value.split(\",\")\n                table[key] = {\"factors\": [fact], \"reactants\": [rdep.split()]}\n        return table\n\n    def option(self, key=None):\n"}], "rules": ["R6"]},
     {"name": "writer-filters-in-comprehension", "file": CONF, "old": "            str(key): value for key, value in self._ratemodifier.items()\n", "new": "            str(key): value for key, value in self._ratemodifier.items() if value\n", "rules": ["R2"]},
     {"name": "reindex-from-1", "file": NETWORK, "old": "for idx, reac in enumerate(self.reaction_list):\n            reac.idxfromfile = idx", "new": "for idx, reac in enumerate(self.reaction_list):\n            reac.idxfromfile = str(idx)", "rules": ["R2", "R3"]},
+    # hardening round 5: generator producer + record, class-level sentinel, carrying a defect
+    {"name": "modifier-generator-dedups-deps", "edits": [{"file": T, "old": 'from typing import TYPE_CHECKING\n', "new": 'from typing import TYPE_CHECKING, NamedTuple\n'}, {"file": T, "old": 'class TemplateLoader:\n', "new": 'class _ModRec(NamedTuple):\n    slot: int\n    coef: str\n    deps: list\n    syms: list\n\n\nclass TemplateLoader:\n'}, {"file": T, "old": '        for sname, expr in ode_modifier.items():\n            spec = Species(sname, **species_kwargs)\n            sidx = species.index(spec)\n            for fact, dep in zip(expr["factors"], expr["reactants"]):\n                depspec = [Species(d, **species_kwargs) for d in dep]\n                depsym = [f"y[IDX_{d.alias}]" for d in depspec]\n                depsym_mul = "*".join(depsym)\n\n                rhs[sidx] += f" + ({fact}) * {depsym_mul}"\n\n                for dspec in depspec:\n                    didx = species.index(dspec)\n                    depsymcopy = depsym.copy()\n                    depsymcopy.remove(y[didx])\n                    depsymcopy_mul = "*".join(depsymcopy)\n\n                    term = f" + {\'*\'.join([f\'({fact})\', *depsymcopy])}"\n                    jacrhs[sidx * n_eqns + didx] += term\n', "new": '        for rec in self._modifier_records(species, species_kwargs, ode_modifier):\n            rhs[rec.slot] += f" + ({rec.coef}) * {\'*\'.join(rec.syms)}"\n            for dspec in rec.deps:\n                didx = species.index(dspec)\n                rest = rec.syms.copy()\n                rest.remove(y[didx])\n                term = f" + {\'*\'.join([f\'({rec.coef})\', *rest])}"\n                jacrhs[rec.slot * n_eqns + didx] += term\n'}, {"file": T, "old": '    def _assign_rates(\n', "new": '    @staticmethod\n    def _modifier_records(species, species_kwargs, ode_modifier):\n        for target, spec_ in ode_modifier.items():\n            slot = species.index(Species(target, **species_kwargs))\n            for coef, names in zip(spec_["factors"], spec_["reactants"]):\n                deps = [Species(n_, **species_kwargs) for n_ in sorted(set(names))]\n                yield _ModRec(slot, coef, deps, [f"y[IDX_{d_.alias}]" for d_ in deps])\n\n    def _assign_rates(\n'}], "rules": ['R4']},
+    {"name": "modifier-generator-wrong-factor", "edits": [{"file": T, "old": 'from typing import TYPE_CHECKING\n', "new": 'from typing import TYPE_CHECKING, NamedTuple\n'}, {"file": T, "old": 'class TemplateLoader:\n', "new": 'class _ModRec(NamedTuple):\n    slot: int\n    coef: str\n    deps: list\n    syms: list\n\n\nclass TemplateLoader:\n'}, {"file": T, "old": '        for sname, expr in ode_modifier.items():\n            spec = Species(sname, **species_kwargs)\n            sidx = species.index(spec)\n            for fact, dep in zip(expr["factors"], expr["reactants"]):\n                depspec = [Species(d, **species_kwargs) for d in dep]\n                depsym = [f"y[IDX_{d.alias}]" for d in depspec]\n                depsym_mul = "*".join(depsym)\n\n                rhs[sidx] += f" + ({fact}) * {depsym_mul}"\n\n                for dspec in depspec:\n                    didx = species.index(dspec)\n                    depsymcopy = depsym.copy()\n                    depsymcopy.remove(y[didx])\n                    depsymcopy_mul = "*".join(depsymcopy)\n\n                    term = f" + {\'*\'.join([f\'({fact})\', *depsymcopy])}"\n                    jacrhs[sidx * n_eqns + didx] += term\n', "new": '        for rec in self._modifier_records(species, species_kwargs, ode_modifier):\n            rhs[rec.slot] += f" + ({rec.coef}) * {\'*\'.join(rec.syms)}"\n            for dspec in rec.deps:\n                didx = species.index(dspec)\n                rest = rec.syms.copy()\n                rest.remove(y[didx])\n                term = f" + {\'*\'.join([f\'({rec.coef})\', *rest])}"\n                jacrhs[rec.slot * n_eqns + didx] += term\n'}, {"file": T, "old": '    def _assign_rates(\n', "new": '    @staticmethod\n    def _modifier_records(species, species_kwargs, ode_modifier):\n        for target, spec_ in ode_modifier.items():\n            slot = species.index(Species(target, **species_kwargs))\n            for coef, names in zip(spec_["factors"], spec_["reactants"]):\n                deps = [Species(n_, **species_kwargs) for n_ in names]\n                yield _ModRec(slot, target, deps, [f"y[IDX_{d_.alias}]" for d_ in deps])\n\n    def _assign_rates(\n'}], "rules": ['R4']},
+    {"name": "reindex-sentinel-constant-zero", "edits": [{"file": T, "old": '    def __init__(self, solver: str, method: str, device: str) -> None:\n', "new": '    UNSET = 0\n\n    def __init__(self, solver: str, method: str, device: str) -> None:\n'}, {"file": T, "old": '        reactindices = [reac.idxfromfile for reac in network.reactions]\n        if all([idx == -1 for idx in reactindices]):\n', "new": '        reactindices = [reac.idxfromfile for reac in network.reactions]\n        nolabel = [reac.idxfromfile == self.UNSET for reac in network.reactions]\n        if all(nolabel):\n'}], "rules": ['R3']},
+    {"name": "statement-percent-format-key", "file": T, "old": 'rateeqns[idx] = f"{rate_sym}[{idx}] = {value};"', "new": 'rateeqns[idx] = "%s[%d] = %s;" % (rate_sym, key, value)', "rules": ["R1"]},
+    {"name": "network-setattr-filtered-table", "file": NETWORK, "old": "        self._rate_modifier = rate_modifier.copy() if rate_modifier else {}", "new": '        setattr(self, "_rate_modifier", {k: v for k, v in rate_modifier.items() if v} if rate_modifier else {})', "rules": ["R7"]},
 ]
 BENIGN = [
     {"name": "init-ode-modifier-setdefault", "file": INIT, "old": '                if ode_modifier.get(key):\n                    ode_modifier[key]["factors"].append(fact)\n                    ode_modifier[key]["reactants"].append(rdep)\n                else:\n                    ode_modifier[key] = {\n                        "factors": [fact],\n                        "reactants": [rdep],\n                    }\n',
@@ -742,6 +803,12 @@ BENIGN = [
         {"file": INIT, "old": "    def option(self, key=None):\n", "new": "    @staticmethod\n    def _ode_terms(values):\n        table = {}\n        for text in values:\n            for om in text.split(\";\"):\n                if not om:\n                    break\n                key, value = om.split(\":\")\n                fact, rdep = value.split(\",\")\n                rec = table.setdefault(key, {\"factors\": [], \"reactants\": []})\n                rec[\"factors\"].append(fact)\n                rec[\"reactants\"].append(rdep.replace(\"[\", \"\").replace(\"]\", \"\").strip().split())\n        return table\n\n    def option(self, key=None):\n"}]},
     {"name": "init-loops-over-option-directly", "file": INIT, "old": '        ode_modifier_str = self.option("ode-modifier")\n        ode_modifier = {}\n        for l in ode_modifier_str:\n', "new": '        ode_modifier = {}\n        for l in self.option("ode-modifier"):\n'},
     {"name": "rename-loop-var", "file": T, "old": "for sname, expr in ode_modifier.items():\n            spec = Species(sname, **species_kwargs)", "new": "for target, expr in ode_modifier.items():\n            spec = Species(target, **species_kwargs)"},
+    # hardening round 5
+    {"name": "modifier-terms-from-generator", "edits": [{"file": T, "old": 'from typing import TYPE_CHECKING\n', "new": 'from typing import TYPE_CHECKING, NamedTuple\n'}, {"file": T, "old": 'class TemplateLoader:\n', "new": 'class _ModRec(NamedTuple):\n    slot: int\n    coef: str\n    deps: list\n    syms: list\n\n\nclass TemplateLoader:\n'}, {"file": T, "old": '        for sname, expr in ode_modifier.items():\n            spec = Species(sname, **species_kwargs)\n            sidx = species.index(spec)\n            for fact, dep in zip(expr["factors"], expr["reactants"]):\n                depspec = [Species(d, **species_kwargs) for d in dep]\n                depsym = [f"y[IDX_{d.alias}]" for d in depspec]\n                depsym_mul = "*".join(depsym)\n\n                rhs[sidx] += f" + ({fact}) * {depsym_mul}"\n\n                for dspec in depspec:\n                    didx = species.index(dspec)\n                    depsymcopy = depsym.copy()\n                    depsymcopy.remove(y[didx])\n                    depsymcopy_mul = "*".join(depsymcopy)\n\n                    term = f" + {\'*\'.join([f\'({fact})\', *depsymcopy])}"\n                    jacrhs[sidx * n_eqns + didx] += term\n', "new": '        for rec in self._modifier_records(species, species_kwargs, ode_modifier):\n            rhs[rec.slot] += f" + ({rec.coef}) * {\'*\'.join(rec.syms)}"\n            for dspec in rec.deps:\n                didx = species.index(dspec)\n                rest = rec.syms.copy()\n                rest.remove(y[didx])\n                term = f" + {\'*\'.join([f\'({rec.coef})\', *rest])}"\n                jacrhs[rec.slot * n_eqns + didx] += term\n'}, {"file": T, "old": '    def _assign_rates(\n', "new": '    @staticmethod\n    def _modifier_records(species, species_kwargs, ode_modifier):\n        for target, spec_ in ode_modifier.items():\n            slot = species.index(Species(target, **species_kwargs))\n            for coef, names in zip(spec_["factors"], spec_["reactants"]):\n                deps = [Species(n_, **species_kwargs) for n_ in names]\n                yield _ModRec(slot, coef, deps, [f"y[IDX_{d_.alias}]" for d_ in deps])\n\n    def _assign_rates(\n'}]},
+    {"name": "reindex-sentinel-class-constant", "edits": [{"file": T, "old": '    def __init__(self, solver: str, method: str, device: str) -> None:\n', "new": '    UNSET = -1\n\n    def __init__(self, solver: str, method: str, device: str) -> None:\n'}, {"file": T, "old": '        reactindices = [reac.idxfromfile for reac in network.reactions]\n        if all([idx == -1 for idx in reactindices]):\n', "new": '        reactindices = [reac.idxfromfile for reac in network.reactions]\n        nolabel = [reac.idxfromfile == self.UNSET for reac in network.reactions]\n        if all(nolabel):\n'}]},
+    {"name": "reindex-zip-imported-count", "edits": [{"file": NETWORK, "old": 'import shutil\n', "new": 'import shutil\nfrom itertools import count as _count\n'}, {"file": NETWORK, "old": 'for idx, reac in enumerate(self.reaction_list):\n            reac.idxfromfile = idx', "new": 'for pos, reac in zip(_count(), self.reaction_list):\n            reac.idxfromfile = pos'}]},
+    {"name": "statement-percent-format", "file": T, "old": 'rateeqns[idx] = f"{rate_sym}[{idx}] = {value};"', "new": 'rateeqns[idx] = "%s[%d] = %s;" % (rate_sym, idx, value)'},
+    {"name": "render-int-keys-dict-of-pairs", "file": RENDER, "old": "rate_modifier = {int(key): value for key, value in rate_modifier.items()}", "new": "rate_modifier = dict((int(key), value) for key, value in rate_modifier.items())"},
 ]
 
 
